@@ -1,0 +1,47 @@
+//go:build verif
+
+package internal
+
+// Machine-checked contracts for the verification machinery in /verif (build tag verif).
+// Comments only. Syntax: /verif/DESIGN.md section 3. The integer calendar model (unix, zoff,
+// lday, wday, ...) is stated in /verif/contracts/stdlib.gvc.
+
+//@ spec secs(x TimeOfDay) mathint = x.hour*3600 + x.minute*60 + x.second
+//@ spec todok(x TimeOfDay) bool = 0 <= x.hour && x.hour < 24 && 0 <= x.minute && x.minute < 60 && 0 <= x.second && x.second < 60 && x.d == secs(x) * 1000000000
+//@ spec trwf(r *TimeRange) bool = r.loc != nil && todok(r.startTime) && todok(r.endTime) && (forall i :: 0 <= i && i < len(r.weekdays) ==> 0 <= r.weekdays[i] && r.weekdays[i] <= 6) && (r.startDay != nil ==> (r.endDay != nil && 0 <= *r.startDay && *r.startDay <= 6 && 0 <= *r.endDay && *r.endDay <= 6)) && (r.startDay == nil ==> r.endDay == nil)
+
+// the weekday filter: a daily window exists for day D iff no weekdays are configured or weekday(D) is listed
+//@ spec dayok(r *TimeRange, wd mathint) bool = len(r.weekdays) == 0 || (exists i :: 0 <= i && i < len(r.weekdays) && r.weekdays[i] == wd)
+
+// daily window opening on local day D: [D 00:00 + start, D 00:00 + end] or, when start >= end, until end on day D+1
+//@ spec inwin(r *TimeRange, x mathint, D mathint) bool = dayok(r, wday(D)) && D*86400 + secs(r.startTime) <= x && x <= (secs(r.startTime) < secs(r.endTime) ? D : D+1)*86400 + secs(r.endTime)
+// a window lasts less than two days, so only the windows opening today or yesterday can contain x
+//@ spec indaily(r *TimeRange, x mathint) bool = inwin(r, x, div(x, 86400)) || inwin(r, x, div(x, 86400) - 1)
+
+//@ func NewTimeOfDay [C18]
+//@   pure
+//@   ensures @d result.d == wrap64(wrap64(wrap64(second*1000000000) + wrap64(minute*60000000000)) + wrap64(hour*3600000000000))
+//@   ensures @fields result.hour == hour && result.minute == minute && result.second == second
+//@   ensures @ok 0 <= hour && hour < 24 && 0 <= minute && minute < 60 && 0 <= second && second < 60 ==> todok(result)
+
+//@ func (r *TimeRange) isInWeekdays [C18]
+//@   pure
+//@   requires trwf(r)
+//@   ensures @member result <==> dayok(r, day)
+//@   loop 1 invariant @notyet forall k :: 0 <= k && k <= $i ==> r.weekdays[k] != day
+//@   loop 1 decreases len(r.weekdays) - $i
+
+//@ func (r *TimeRange) addWeekdayOffset [C18]
+//@   pure
+//@   requires 0 <= day && day <= 6 && -7 <= offset && offset <= 7
+//@   ensures @range 0 <= result && result <= 6
+//@   ensures @congruent mod(result - day - offset, 7) == 0
+
+// "evaluated away from the one-second window edges": the local time of day is neither the start nor the end time
+//@ spec awayD(r *TimeRange, x mathint) bool = mod(x, 86400) != secs(r.startTime) && mod(x, 86400) != secs(r.endTime)
+
+//@ func (r *TimeRange) isInTimeRange [C18]
+//@   pure
+//@   requires trwf(r)
+//@   requires @away awayD(r, lsecIn(t, r.loc))
+//@   ensures @window result <==> indaily(r, lsecIn(t, r.loc))
